@@ -59,6 +59,7 @@ type Chan struct {
 	buf    []Value
 	cap    int
 	closed bool
+	timer  bool // a timer's channel: in a select it may fire at any moment
 }
 
 // Float values are concrete only.
